@@ -81,7 +81,8 @@ static int spec_ipv6(const u8 *s, size_t n)
         if (c == '.') {       /* dotted-quad tail: the current group is its first octet */
             if (!V_ACC_V4TAIL(ph, groups, dc)) return 0;
             int r = spec_ipv4(s + grp, n - grp);
-            return r;
+            /* "::" with five groups before the quad: RFC 4291 yes, RFC 5321 (IPv6v4-comp: at most four) no: both outcomes allowed */
+            return (r == 1 && !V_ACC_V4TAIL_5321(ph, groups, dc)) ? 2 : r;
         }
         if (V_IS_HEX(c) && ph != V_HEX) grp = i;
         int ph2 = V_NEXT_PH(ph, groups, hex, dc, c), g2 = V_NEXT_GROUPS(ph, groups, c), h2 = V_NEXT_HEX(ph, hex, c), d2 = V_NEXT_DC(ph, dc, c);
@@ -307,6 +308,21 @@ int main(int argc, char **argv)
                     else { size_t pl = (size_t)(variant - 4); if (pl == 0) continue; memcpy(buf + n, w, pl); n += pl; }
                     if (check(kind, buf, n, args, nargs, 0)) { printf("FOUND "); print_hex(buf, n); printf("\n"); return 1; }
                 }
+            }
+        }
+        if (!strcmp(kind, "ipv6") || !strncmp(kind, "email", 5)) {
+            /* structured: every RFC 4291 / 5321 shape - a groups, optionally "::", b groups, optionally a dotted-quad tail -
+               with group texts of 1..4 digits, one extra / one missing group around the legal counts included */
+            static const char *grp[] = { "1", "ab", "0db8", "f" };
+            for (int a = 0; a <= 8; a++) for (int b = 0; b <= 8; b++) for (int dc = 0; dc <= 1; dc++) for (int v4 = 0; v4 <= 1; v4++) for (int g = 0; g < 4; g++) {
+                if (!dc && b) continue;                       /* without "::" there is only one run of groups */
+                size_t n = 0; const char *pre = !strncmp(kind, "email", 5) ? "u@[IPv6:" : ""; memcpy(buf, pre, strlen(pre)); n = strlen(pre);
+                for (int i = 0; i < a; i++) { if (i) buf[n++] = ':'; const char *w = grp[(g + i) % 4]; memcpy(buf + n, w, strlen(w)); n += strlen(w); }
+                if (dc) { buf[n++] = ':'; buf[n++] = ':'; }
+                for (int i = 0; i < b; i++) { if (i) buf[n++] = ':'; const char *w = grp[(g + i + 1) % 4]; memcpy(buf + n, w, strlen(w)); n += strlen(w); }
+                if (v4) { if ((dc ? b : a) > 0) buf[n++] = ':'; memcpy(buf + n, "192.0.2.1", 9); n += 9; }
+                if (!strncmp(kind, "email", 5)) buf[n++] = ']';
+                if (check(kind, buf, n, args, nargs, 0)) { printf("FOUND "); print_hex(buf, n); printf("\n"); return 1; }
             }
         }
         /* exhaustive over short token sequences of the reduced alphabet, then random longer ones with structure */
